@@ -16,6 +16,12 @@ and unparse (normal form of a dznpy FileContents) - the check compares the last 
 """
 
 
+def nid(name):
+    """Identifier list of a declared name: 'X' -> ['X'] ; 'Hal.Level' -> ['Hal', 'Level'] (a declaration may carry a
+    multi-identifier name: same FQN as the single name inside namespace Hal)."""
+    return name.split('.') if isinstance(name, str) else list(name)
+
+
 def sn(ids):
     return {'<class>': 'scope_name', 'ids': list(ids)}
 
@@ -53,26 +59,26 @@ def j_node(node):
     if kind == 'ns':
         return {'<class>': 'namespace', 'name': sn(node[1]), 'elements': [j_node(c) for c in node[2]]}
     if kind in ('component', 'foreign'):
-        return {'<class>': kind, 'name': sn([node[1]]), 'ports': j_ports(node[2])}
+        return {'<class>': kind, 'name': sn(nid(node[1])), 'ports': j_ports(node[2])}
     if kind == 'system':
-        return {'<class>': 'system', 'name': sn([node[1]]), 'ports': j_ports(node[2]),
+        return {'<class>': 'system', 'name': sn(nid(node[1])), 'ports': j_ports(node[2]),
                 'instances': {'<class>': 'instances', 'elements': [
                     {'<class>': 'instance', 'name': i[0], 'type_name': sn(i[1])} for i in node[3]]},
                 'bindings': {'<class>': 'bindings', 'elements': [
                     {'<class>': 'binding', 'left': j_endpoint(b[0]), 'right': j_endpoint(b[1])}
                     for b in node[4]]}}
     if kind == 'interface':
-        return {'<class>': 'interface', 'name': sn([node[1]]),
+        return {'<class>': 'interface', 'name': sn(nid(node[1])),
                 'types': {'<class>': 'types', 'elements': [j_node(t) for t in node[2]]},
                 'events': {'<class>': 'events', 'elements': [j_event(e) for e in node[3]]}}
     if kind == 'enum':
-        return {'<class>': 'enum', 'name': sn([node[1]]),
+        return {'<class>': 'enum', 'name': sn(nid(node[1])),
                 'fields': {'<class>': 'fields', 'elements': list(node[2])}}
     if kind == 'subint':
-        return {'<class>': 'subint', 'name': sn([node[1]]),
+        return {'<class>': 'subint', 'name': sn(nid(node[1])),
                 'range': {'<class>': 'range', 'from': node[2], 'to': node[3]}}
     if kind == 'extern':
-        return {'<class>': 'extern', 'name': sn([node[1]]), 'value': {'<class>': 'data', 'value': node[2]}}
+        return {'<class>': 'extern', 'name': sn(nid(node[1])), 'value': {'<class>': 'data', 'value': node[2]}}
     if kind == 'import':
         return {'<class>': 'import', 'name': node[1]}
     if kind == 'filename':
@@ -138,16 +144,16 @@ def expected(doc):
             if kind == 'ns':
                 walk(node[2], scope + list(node[1]))
             elif kind in ('component', 'foreign'):
-                out[kind + 's'].append({'fqn': scope + [node[1]], 'scope': scope, 'name': [node[1]],
+                out[kind + 's'].append({'fqn': scope + nid(node[1]), 'scope': scope, 'name': nid(node[1]),
                                         'ports': _ports(node[2])})
             elif kind == 'system':
-                out['systems'].append({'fqn': scope + [node[1]], 'scope': scope, 'name': [node[1]],
+                out['systems'].append({'fqn': scope + nid(node[1]), 'scope': scope, 'name': nid(node[1]),
                                        'ports': _ports(node[2]),
                                        'instances': [[i[0], list(i[1])] for i in node[3]],
                                        'bindings': [[[b[0][0], b[0][1]], [b[1][0], b[1][1]]]
                                                     for b in node[4]]})
             elif kind == 'interface':
-                inner = scope + [node[1]]
+                inner = scope + nid(node[1])
                 types = []
                 for typ in node[2]:
                     if typ[0] == 'enum':
@@ -160,16 +166,16 @@ def expected(doc):
                                'range': [typ[2], typ[3]]}
                         out['subints'].append(rec)
                         types.append(['subint', rec])
-                out['interfaces'].append({'fqn': inner, 'scope': scope, 'name': [node[1]], 'trail': inner,
+                out['interfaces'].append({'fqn': inner, 'scope': scope, 'name': nid(node[1]), 'trail': inner,
                                           'types': types, 'events': _events(node[3])})
             elif kind == 'enum':
-                out['enums'].append({'fqn': scope + [node[1]], 'scope': scope, 'name': [node[1]],
+                out['enums'].append({'fqn': scope + nid(node[1]), 'scope': scope, 'name': nid(node[1]),
                                      'fields': list(node[2])})
             elif kind == 'subint':
-                out['subints'].append({'fqn': scope + [node[1]], 'scope': scope, 'name': [node[1]],
+                out['subints'].append({'fqn': scope + nid(node[1]), 'scope': scope, 'name': nid(node[1]),
                                        'range': [node[2], node[3]]})
             elif kind == 'extern':
-                out['externs'].append({'fqn': scope + [node[1]], 'scope': scope, 'name': [node[1]],
+                out['externs'].append({'fqn': scope + nid(node[1]), 'scope': scope, 'name': nid(node[1]),
                                        'data': node[2]})
             elif kind == 'import':
                 out['imports'].append({'name': node[1]})
